@@ -11,12 +11,13 @@ ENVS = [
     [],                              # nothing set
     ["AB=long-value-long-value", "A=s", "HOME=", "ABC"],   # entry without '='; empty HOME
     ["A=1", "A=2", "HOMER=x", "HOME=/first", "HOME=/second"],  # duplicates: first wins; prefix names
+    ["N" * 63 + "=v63", "N" * 63 + "X=v64", "M" * 200 + "=v200", "A=1"],   # long names (no fixed-size name buffer may truncate them)
 ]
 
 def run(ck):
     ck.level = "proof"
     ck.cov["rule"] = ("every string over {$ ~ A _ a / : { }} up to length 5 (quick) / 7 (thorough) plus '1'-containing and seeded random longer strings, "
-                      "each under 7 environments (set, unset, empty values, values containing $ and ~, HOME unset, duplicates, environ == NULL); "
+                      "each under 8 environments (set, unset, empty values, values containing $ and ~, HOME unset, duplicates, names of 63/64/200 characters, environ == NULL); "
                       "non-trivial = string containing '$' or '~'")
     ck.assumptions += ["strings and environment entries are NUL-terminated C strings", "realloc grows a block preserving its prefix"]
     if not ck.build_driver(): return
@@ -32,6 +33,7 @@ def run(ck):
         strings += ["".join(t) for t in itertools.product(alpha, repeat=n)]
     extra = ["$A", "a$A", "ab$A!", "$A$AB", "$AB$A", "x$Ay", "~", "~/x", "a:~:b", "~a", "a~", "a~/b", "$", "$$", "$a", "${A}", "$1", "$A1", "$_", "$__x", "~~", "~:~",
              "/usr/$A/$AB/~/x", "$ABC", "$AB_", "pre$AAA", "$HOME/~", "~$A", "$A~", "$A~/", "x$", "x~", "$Z9_z"]
+    extra += ["$" + "N" * 63, "$" + "N" * 63 + "X", "<$" + "N" * 63 + "XY>", "$" + "N" * 62, "a$" + "M" * 200 + "/b", "$" + "M" * 199, "$" + "M" * 201, "$" + "N" * 63 + "/$" + "N" * 63 + "X"]
     for _ in range(2000 if ck.tier == "quick" else 40000):
         n = ck.rng.randint(6, 30)
         extra.append("".join(ck.rng.choice("$$~~AAB_a1/:{}x.-") for _ in range(n)))
